@@ -71,7 +71,8 @@ func (w *writer) NeedsRollover(rollover int64) bool {
 	// Rollover is intentionally based on data-file size only, not including the
 	// index. The index grows proportionally; callers set the threshold based on
 	// message-data volume, not total on-disk cost.
-	return w.messages.Size() > rollover
+	// An empty segment is never rolled over: the new segment would get the same name.
+	return w.messages.Size() > rollover && w.index.Len() > 0
 }
 
 func (w *writer) Publish(msgs []message.Message) (int64, error) {
